@@ -3,10 +3,10 @@
 tier=${1:-quick}; seed=${2:-1}; shift 2 2>/dev/null
 ids="$@"
 [ -z "$ids" ] && ids="C01 C02 C03 C04 C05 C06 C07 C08 C09 C10 C11 C12 C13 C14 C15 C16 C17 C18 C19 C20"
-cd /verif
+cd "$(dirname "$0")/.."
 for id in $ids; do
   start=$(date +%s)
-  out=$(VERIF_SEED=$seed PYTHONHASHSEED=${PHS:-0} timeout 7200 /venv/bin/python run_check.py $id --tier $tier 2>&1)
+  out=$(VERIF_SEED=$seed PYTHONHASHSEED=${PHS:-0} timeout 7200 /venv/bin/python ./run_check.py $id --tier $tier 2>&1)
   rc=$?
   end=$(date +%s)
   echo "$id seed=$seed tier=$tier rc=$rc $((end-start))s :: $(echo "$out" | tail -1)"
